@@ -157,10 +157,10 @@ Proof. reflexivity. Qed.
    cwnd / (W_tcp - cwnd) *)
 Theorem cubic_growth_rule cs cw ss rtt now :
   ~ (cw <= ss)%Q -> (0 < c_epoch cs)%Q ->
-  let dmin := if Qltb 0 (c_dmin cs) then (if Qltb rtt (c_dmin cs) then rtt else c_dmin cs) else rtt in
+  let dmin := if Qltb 0 (c_dmin cs) then (if Qle_bool (c_dmin cs) rtt then c_dmin cs else rtt) else rtt in
   let t := (now + dmin - c_epoch cs)%Q in
   let target := (c_origin cs + (2 # 5) * ((t - c_k cs) * (t - c_k cs) * (t - c_k cs)))%Q in
-  let wtcp := (c_wtcp cs + (3 # 1) * cBeta / ((2 # 1) - cBeta) * (inject_Z (c_ackcnt cs + 1) / cw))%Q in
+  let wtcp := (c_wtcp cs + (3 # 1) * cBeta / ((2 # 1) - cBeta) * ((c_ackcnt cs + 1) / cw))%Q in
   let cnt1 := if Qltb cw target then (cw / (target - cw))%Q else ((100 # 1) * cw)%Q in
   cubic_ack cs cw ss rtt now =
   CubOk (mkcub (c_wlast cs) (c_epoch cs) (c_origin cs) dmin wtcp (c_k cs) 0)
@@ -175,10 +175,10 @@ Qed.
    epoch_start = now, W_tcp = cwnd, so t = d_min and the target is cwnd + C d_min^3 *)
 Theorem cubic_epoch_start_rule cs cw ss rtt now :
   ~ (cw <= ss)%Q -> (c_epoch cs <= 0)%Q -> ~ (cw < c_wlast cs)%Q ->
-  let dmin := if Qltb 0 (c_dmin cs) then (if Qltb rtt (c_dmin cs) then rtt else c_dmin cs) else rtt in
+  let dmin := if Qltb 0 (c_dmin cs) then (if Qle_bool (c_dmin cs) rtt then c_dmin cs else rtt) else rtt in
   let t := (now + dmin - now)%Q in
   let target := (cw + (2 # 5) * ((t - 0) * (t - 0) * (t - 0)))%Q in
-  let wtcp := (cw + (3 # 1) * cBeta / ((2 # 1) - cBeta) * (inject_Z 1 / cw))%Q in
+  let wtcp := (cw + (3 # 1) * cBeta / ((2 # 1) - cBeta) * (1 / cw))%Q in
   let cnt1 := if Qltb cw target then (cw / (target - cw))%Q else ((100 # 1) * cw)%Q in
   cubic_ack cs cw ss rtt now =
   CubOk (mkcub (c_wlast cs) now cw dmin wtcp 0 0)
@@ -195,7 +195,7 @@ Theorem cubic_slow_start_rule cs cw ss rtt now :
   (cw <= ss)%Q ->
   cubic_ack cs cw ss rtt now =
   CubOk (mkcub (c_wlast cs) (c_epoch cs) (c_origin cs)
-               (if Qltb 0 (c_dmin cs) then (if Qltb rtt (c_dmin cs) then rtt else c_dmin cs) else rtt)
+               (if Qltb 0 (c_dmin cs) then (if Qle_bool (c_dmin cs) rtt then c_dmin cs else rtt) else rtt)
                (c_wtcp cs) (c_k cs) (c_ackcnt cs)) None.
 Proof. intros H. unfold cubic_ack. apply Qle_bool_iff in H. rewrite H. reflexivity. Qed.
 
